@@ -1,11 +1,160 @@
-//! C12 — not built yet.
+//! C12 — sharing: no duplicate nodes without eviction, minimal DFA for sets, trie bound, corpus sharing ratio.
 use crate::common::*;
+use crate::core::*;
+use fst::raw::Fst;
+use std::collections::{BTreeMap, HashMap, HashSet};
+
 pub struct P;
-impl Prop for P {
-    fn generate(&self, _tier: Tier, _rng: &mut Rng, _stats: &mut Stats) -> Vec<String> {
-        vec![]
+
+#[derive(Default)]
+struct Trie {
+    fin: bool,
+    ch: BTreeMap<u8, Box<Trie>>,
+}
+fn trie_of(ks: &[Vec<u8>]) -> Trie {
+    let mut root = Trie::default();
+    for k in ks {
+        let mut n = &mut root;
+        for &b in k {
+            n = n.ch.entry(b).or_default();
+        }
+        n.fin = true;
     }
-    fn execute(&self, _case: &str) -> String {
-        String::new()
+    root
+}
+fn trie_nodes(t: &Trie) -> usize {
+    1 + t.ch.values().map(|c| trie_nodes(c)).sum::<usize>()
+}
+/// number of states of the minimal acyclic DFA = distinct right languages, by bottom-up hash-consing
+fn canon(t: &Trie, tab: &mut HashMap<(bool, Vec<(u8, usize)>), usize>) -> usize {
+    let sig: Vec<(u8, usize)> = t.ch.iter().map(|(b, c)| (*b, canon(c, tab))).collect();
+    let n = tab.len();
+    *tab.entry((t.fin, sig)).or_insert(n)
+}
+/// (distinct residual languages, is the language {""} among them)
+fn minimal_states(ks: &[Vec<u8>]) -> (usize, bool) {
+    let t = trie_of(ks);
+    let mut tab = HashMap::new();
+    canon(&t, &mut tab);
+    (tab.len(), tab.contains_key(&(true, vec![])))
+}
+
+pub struct NodeInfo {
+    pub emitted: usize,
+    pub dup: Option<(usize, usize)>,
+}
+pub fn node_info(f: &Fst<Vec<u8>>) -> NodeInfo {
+    let mut seen: HashSet<usize> = HashSet::new();
+    let mut stack = vec![f.root().addr()];
+    let mut sigs: HashMap<(bool, u64, Vec<(u8, u64, usize)>), usize> = HashMap::new();
+    let mut dup = None;
+    while let Some(a) = stack.pop() {
+        if a == 0 || !seen.insert(a) {
+            continue;
+        }
+        let n = f.node(a);
+        let sig = (n.is_final(), n.final_output().value(), n.transitions().map(|t| (t.inp, t.out.value(), t.addr)).collect::<Vec<_>>());
+        if let Some(&other) = sigs.get(&sig) {
+            dup = Some((other, a));
+        } else {
+            sigs.insert(sig, a);
+        }
+        for t in n.transitions() {
+            stack.push(t.addr);
+        }
+    }
+    NodeInfo { emitted: seen.len(), dup }
+}
+
+fn sharing(file: &str, limit: usize) -> (usize, usize, usize, f64) {
+    let ks = corpus(file, limit);
+    let t = trie_of(&ks);
+    let trie = trie_nodes(&t);
+    let (minimal, _) = minimal_states(&ks);
+    let out = exec_build("extend", "raw_loop", 0, 10_000, 2, &set_ops(&ks));
+    let f = Fst::new(out.bytes.unwrap()).unwrap();
+    let emitted = node_info(&f).emitted;
+    let frac = (trie as f64 - emitted as f64) / (trie as f64 - minimal as f64);
+    (trie, minimal, emitted, frac)
+}
+
+impl Prop for P {
+    fn generate(&self, tier: Tier, rng: &mut Rng, stats: &mut Stats) -> Vec<String> {
+        let mut cases = vec![];
+        let nrand = match tier { Tier::Quick => 400, Tier::Thorough => 6000, Tier::Wide => 1500 };
+        let sets = crate::c02::standard_keysets(tier, rng, stats, nrand);
+        for ks in sets {
+            // big caches (no eviction expected), the default, and caches that evict all the time
+            let geoms: [(usize, usize); 5] = [(10_000, 2), (4096, 4), (1, 1), (2, 2), (3, 3)];
+            let g = if rng.chance(1, 2) { geoms[0] } else { *rng.pick(&geoms) };
+            cases.push(build_case("extend", "raw_loop", 0, g.0, g.1, &set_ops(&ks)));
+            let p = 1 + rng.below(NPATTERNS as u64 - 1) as usize;
+            let vals = value_pattern(p, ks.len(), rng);
+            cases.push(build_case("extend", "raw_loop", 0, g.0, g.1, &map_ops(&with_values(&ks, &vals))));
+        }
+        cases
+    }
+    fn nontrivial(&self, case: &str) -> bool {
+        case.matches(',').count() >= 2
+    }
+    fn execute(&self, case: &str) -> String {
+        let line = exec_build_case(&case["build ".len()..]);
+        // add the sharing checks to X
+        let p: Vec<&str> = case.split(' ').collect();
+        let rows: usize = p[4].parse().unwrap();
+        let cols: usize = p[5].parse().unwrap();
+        let ops = parse_ops(p[6]);
+        let is_set = ops.iter().all(|o| matches!(o, Op::Add(..)));
+        let out = exec_build("extend", "raw_loop", 0, rows, cols, &ops);
+        let st = out.stats.unwrap();
+        let f = Fst::new(out.bytes.unwrap()).unwrap();
+        let info = node_info(&f);
+        let ks: Vec<Vec<u8>> = ops.iter().map(|o| o.key().to_vec()).collect();
+        let trie = trie_nodes(&trie_of(&ks));
+        let mut x: Option<String> = None;
+        // the hook counters cover the whole build, finishing included
+        if info.emitted > trie {
+            x = Some(format!("{} nodes emitted but the prefix trie has only {}", info.emitted, trie));
+        }
+        if info.emitted as u64 != st[1] + st[3] {
+            x = Some(format!("{} nodes reachable but {} nodes were written (cache misses + rejected)", info.emitted, st[1] + st[3]));
+        }
+        if st[2] == 0 && rows * cols != 0 {
+            if let Some((a, b)) = info.dup {
+                x = Some(format!("duplicate nodes at addresses {} and {} although nothing was evicted", a, b));
+            }
+            if is_set {
+                let (min, has_eps) = minimal_states(&ks);
+                let want = min - if has_eps { 1 } else { 0 };
+                if info.emitted != want {
+                    x = Some(format!("set compiled to {} nodes, minimal DFA has {} (without the shared empty-final sentinel)", info.emitted, want));
+                }
+            }
+        }
+        match x {
+            None => line,
+            Some(msg) => {
+                let mut parts: Vec<String> = line.split('\t').map(|s| s.to_string()).collect();
+                parts[2] = format!("X:{}", msg);
+                parts.join("\t")
+            }
+        }
+    }
+    fn extras(&self, tier: Tier, _rng: &mut Rng, _stats: &mut Stats) -> Vec<(String, bool, String)> {
+        // realised sharing on the shipped corpora, against 0.9 x the value measured at the pinned revision
+        let mut out = vec![];
+        let mut list = vec![("words-10000", 10_000usize, 0.959f64), ("wiki-urls-10000", 10_000, 0.779)];
+        if tier == Tier::Thorough {
+            list.push(("words-100000", 100_000, 0.909));
+        }
+        for (f, n, pinned) in list {
+            let (trie, minimal, emitted, frac) = sharing(f, n);
+            out.push((
+                format!("sharing_{}", f),
+                frac >= 0.9 * pinned,
+                format!("trie={} minimal={} emitted={} realised sharing={:.4} (pinned revision {:.3}, threshold {:.3})", trie, minimal, emitted, frac, pinned, 0.9 * pinned),
+            ));
+        }
+        out
     }
 }
